@@ -41,6 +41,25 @@ def extra(src, tier, seed):
         out.append({'name': 'FabricEvent:frame/publication-counter-%s-is-never-rebound' % cname,
                     'status': 'discharged' if not offenders else 'refuted', 'backend': 'ast-frame-scan', 'seconds': 0.0,
                     'detail': 'rebound in: ' + ', '.join(offenders) if offenders else 'no store to .%s in any function' % cname})
+    # the heap list inside the two PriorityQueues: delivery order is what heappush/heappop make of it, so nothing may
+    # touch it directly except to empty it (a slice assignment, a remove or a sort leaves a list that is no heap)
+    offenders = []
+    for path, fi in src.funcs.items():
+        if not path.startswith('activeobject.ActiveFabricSource'):
+            continue
+        parents = {}
+        for n in ast.walk(fi.node):
+            for ch in ast.iter_child_nodes(n):
+                parents[ch] = n
+        for n in ast.walk(fi.node):
+            if isinstance(n, ast.Attribute) and n.attr == 'queue' and not (isinstance(n.value, ast.Name) and n.value.id == 'self'):
+                up = parents.get(n)
+                ok = isinstance(up, ast.Attribute) and up.attr == 'clear' and isinstance(parents.get(up), ast.Call)
+                if not ok:
+                    offenders.append('%s line %d' % (path, n.lineno))
+    out.append({'name': 'PriorityQueue:frame/heap-list-only-emptied-never-edited', 'backend': 'ast-frame-scan', 'seconds': 0.0,
+                'status': 'discharged' if not offenders else 'refuted',
+                'detail': ('edited in: ' + ', '.join(offenders)) if offenders else 'the only use of <queue>.queue is .clear()'})
     if not counters:
         out.append({'name': 'FabricEvent:frame/publication-counter-exists', 'status': 'discharged', 'backend': 'ast-frame-scan',
                     'seconds': 0.0, 'detail': 'no itertools.count class attribute (tie-break, if any, is checked by FabricEvent:order)'})
